@@ -6,7 +6,7 @@ from . import common, gensched, seqcheck
 CONCDRIVER = os.path.join(common.OCAML, "concdriver")
 
 
-CI_STATS = dict(steps=0, gi_failures=0, pc_failures=0, first=None)
+CI_STATS = dict(steps=0, gi_failures=0, pc_failures=0, lin_failures=0, linearization_points=0, first=None)
 
 
 def run_cases(vh, cases, workdir, tag="sched", ci=False):
@@ -20,12 +20,14 @@ def run_cases(vh, cases, workdir, tag="sched", ci=False):
     r = common.run(["timeout", "3600", CONCDRIVER, cp, go_obs, mo_obs] + (["gi"] if ci else []))
     if r.returncode != 0:
         raise RuntimeError("model driver (sched) failed: " + (r.stdout + r.stderr)[-2000:])
-    m = re.search(r"model_ci_steps (\d+) model_gi_failures (\d+) model_pc_failures (\d+)", r.stdout)
+    m = re.search(r"model_ci_steps (\d+) model_gi_failures (\d+) model_pc_failures (\d+) lin_failures (\d+) lps (\d+)", r.stdout)
     if m:
+        CI_STATS["lin_failures"] += int(m.group(4))
+        CI_STATS["linearization_points"] += int(m.group(5))
         CI_STATS["steps"] += int(m.group(1))
         CI_STATS["gi_failures"] += int(m.group(2))
         CI_STATS["pc_failures"] += int(m.group(3))
-        bad = re.search(r"PCBAD.*", r.stdout)
+        bad = re.search(r"(PCBAD|LINBAD).*", r.stdout)
         if bad and not CI_STATS["first"]:
             CI_STATS["first"] = bad.group(0)[:600]
     return parse_runs(go_obs), parse_runs(mo_obs)
